@@ -151,13 +151,13 @@ Qed.
 
 (* ------------------------------------------------------------------ the loop over branch.endNodes *)
 
-Fixpoint x_branch_ends (upd : nat -> xstate -> option xstate) (j : nat) (xs : xstate) (s : key)
+Fixpoint xb_ends (upd : nat -> xstate -> option xstate) (j : nat) (xs : xstate) (s : key)
          (ends : list key) : option xstate :=
   match ends with
   | [] => Some xs
   | e :: rest =>
       match B.branch_end (upd (S j)) xs s e with
-      | BOk xs1 _ => x_branch_ends upd (S j) xs1 s rest
+      | BOk xs1 _ => xb_ends upd (S j) xs1 s rest
       | BFail => None
       end
   end.
@@ -166,7 +166,7 @@ Fixpoint x_branch_ends (upd : nat -> xstate -> option xstate) (j : nat) (xs : xs
    [branch_ends] *)
 Theorem gen_branch_ends_agrees : forall u (orc : nat -> nat -> list key) upd ends j xs s,
   gh_inv xs -> (forall j, upd_ok u (orc (S j)) (upd (S j))) ->
-  match x_branch_ends upd j xs s ends with
+  match xb_ends upd j xs s ends with
   | Some xs' => branch_ends u false orc j (x_st xs) s ends = Some (x_st xs') /\ gh_inv xs'
   | None => branch_ends u false orc j (x_st xs) s ends = None
   end.
